@@ -1,2 +1,11 @@
-// Package c08 holds the workloads and oracles that decide property C08.
+// Package c08 holds the workloads and oracles that decide property C08 (SM2 key
+// agreement). It executes sm2.KeyExchange (the big-integer implementation) and the
+// ecdh package (byte oriented: ECDH, SM2MQV, SM2SharedKey, SM2ZA) on generated
+// sessions next to the reference of verifh/ref/sm2kx (GB/T 32918.3 with exact
+// integer arithmetic).
+//
+//	c08.agree    complete sessions: both parties, both implementations, reference
+//	c08.confirm  genuine confirmation values accepted, forged ones refused
+//	c08.peers    invalid peer points refused at every step where a peer value enters
+//	c08.ecdh     plain ECDH against x([a]B)
 package c08
